@@ -86,7 +86,9 @@ def build_case(draw, table, tl, k1, k2):
         where = cond if where is None else ['and', [where, cond]]
     okey = ref1 if isinstance(ref1, int) else ['col', ref1]
     order = pick([None, None, [(okey, 'DESC')], [(p1, 'ASC')], [(p2, 'DESC'), (p1, 'DESC')], [(['fn', 'count', [['star']]], 'DESC')]])
-    sel = bql.select([tuple(t) for t in tl], ('table', 't'), where, gb, having, order_by=order, pivot_by=[ref1, ref2])
+    # LIMIT cuts the un-pivoted (sorted) rows, the pivot reshapes what is left
+    limit = pick([None, None, None, 1, 2, 3, 5])
+    sel = bql.select([tuple(t) for t in tl], ('table', 't'), where, gb, having, order_by=order, pivot_by=[ref1, ref2], limit=limit)
     alt = dict(sel, pivot_by=[p1 if ref1 != p1 else n1, p2 if ref2 != p2 else n2])
     return {'tables': [table], 'sel': harness.force_aliases(sel), 'alt': harness.force_aliases(alt), 'pos': [p1, p2]}
 
